@@ -2,13 +2,52 @@
 import multiprocessing as mp, os
 
 
+# jobs of `pmap` that raised because the harness could not drive the code under test (an internal interface of /repo changed):
+# (function name, traceback text).  The runner turns these into a correspondence violation; the other jobs' results are used.
+DRIFT = []
+
+
+class _Failed:
+    def __init__(self, where, text, machinery):
+        self.where, self.text, self.machinery = where, text, machinery
+
+
+class _Guard:
+    """picklable wrapper: a job that raises returns a `_Failed` record instead of aborting the whole check"""
+
+    def __init__(self, fn):
+        self.fn = fn
+
+    def __call__(self, job):
+        try:
+            return self.fn(job)
+        except Exception as e:
+            import traceback
+            from .driver import DriverError
+            machinery = isinstance(e, (DriverError, MemoryError))
+            return _Failed(getattr(self.fn, '__qualname__', str(self.fn)), traceback.format_exc()[-3000:], machinery)
+
+
 def pmap(fn, jobs, workers=None):
+    """results of the jobs that ran; a job that raised is recorded in DRIFT (and left out), unless the failure is the model driver's
+    or the machine's, which is re-raised (exit 2)"""
     workers = workers or min(16, os.cpu_count() or 4, max(1, len(jobs)))
+    g = _Guard(fn)
     if workers <= 1 or len(jobs) <= 1:
-        return [fn(j) for j in jobs]
-    ctx = mp.get_context('fork')
-    with ctx.Pool(workers) as pool:
-        return pool.map(fn, jobs, chunksize=1)
+        outs = [g(j) for j in jobs]
+    else:
+        ctx = mp.get_context('fork')
+        with ctx.Pool(workers) as pool:
+            outs = pool.map(g, jobs, chunksize=1)
+    good = []
+    for o in outs:
+        if isinstance(o, _Failed):
+            if o.machinery:
+                raise RuntimeError('machinery failure in ' + o.where + ':\n' + o.text)
+            DRIFT.append((o.where, o.text))
+        else:
+            good.append(o)
+    return good
 
 
 def with_deadline(fn, arg, timeout=20):
@@ -48,3 +87,16 @@ def with_deadline(fn, arg, timeout=20):
     if not raw:
         return 'died', os.waitstatus_to_exitcode(status)
     return 'ok', json.loads(raw.decode())
+
+
+def soft(name, fn):
+    """run one part of a property module; when it cannot be completed because jobs were lost to DRIFT, say so and go on with the
+    parts that follow (they may still find a failing input).  Without DRIFT the exception is the machinery's own and is re-raised."""
+    try:
+        return fn()
+    except Exception:
+        if not DRIFT:
+            raise
+        import traceback
+        DRIFT.append((name, traceback.format_exc()[-3000:]))
+        return None
